@@ -144,3 +144,67 @@ func VerifC12RotateNoClobber() {
 	verifAssert(j >= 0 && verifSameSlice(f.storage.objects[j].data, before), "a rotation without overwrite permission leaves the existing certificate object unchanged")
 	verifReach("end")
 }
+
+// Wipeout: after bootstrap and one rotation, rotate.Wipeout with either or both of its targets
+// selected. With the authority selected, the very same authority object (which has served reads
+// and holds whatever it caches) and a freshly loaded one must both have lost the primary, the
+// certificates and the root; with the keys selected no key can sign any more; a target that is not
+// selected is left alone.
+func verifC12Wipeout(gcs bool) {
+	f := verifNewFixture(gcs, false)
+	verifAssume(f.bootstrap() == nil, "fault-free bootstrap succeeds")
+	ca := f.newCA()
+	_, err := f.rotateOnce(ca, false, time.Unix(int64(verifNondetU32("t")), 0))
+	verifAssume(err == nil, "fault-free rotation succeeds")
+	ctx := f.ctx(ca, false)
+	primary, err := ca.PrimarySigningKeyVersion(ctx)
+	verifAssert(err == nil, "a primary is recorded before the wipeout")
+	_, err = sops.CertificateX509(ctx, ca, primary) // the authority has served reads before
+	verifAssert(err == nil, "the primary's certificate is readable before the wipeout")
+	wipeCA, wipeKeys := verifNondetBool("wipe_ca"), verifNondetBool("wipe_keys")
+	werr := rotate.Wipeout(rotate.NewWipeoutContext(ctx, &rotate.WipeoutContext{CA: wipeCA, Keys: wipeKeys}))
+	verifAssert(werr == nil, "a fault-free wipeout succeeds")
+	verifObserve("wipe_ca", wipeCA)
+	for i, a := range []styp.CertificateAuthority{ca, f.newCA()} {
+		actx := f.ctx(a, false)
+		pname, perr := a.PrimarySigningKeyVersion(actx)
+		_, cerr := a.Certificate(actx, primary)
+		_, rerr := a.CABundle(actx, primary)
+		if wipeCA {
+			verifAssert(perr != nil || pname == "", "after an authority wipeout no primary signing key is recorded (error or empty name)")
+			verifAssert(cerr != nil, "after an authority wipeout the old primary's certificate is gone")
+			verifAssert(rerr != nil, "after an authority wipeout the root certificate is gone")
+			verifReach("ca-wiped")
+		} else {
+			verifAssert(perr == nil && pname == primary && cerr == nil, "an authority that was not selected for wipeout is left alone")
+			verifReach("ca-kept")
+		}
+		_ = i
+	}
+	_, serr := f.signer.Sign(ctx, primary, styp.Digest{}, nil)
+	if wipeKeys {
+		verifAssert(serr != nil, "after a key wipeout the old primary cannot sign")
+		verifReach("keys-wiped")
+	} else {
+		verifAssert(serr == nil, "keys that were not selected for wipeout are left alone")
+	}
+	verifReach("end")
+}
+
+func VerifC12WipeoutGcs() { verifC12Wipeout(true) }
+func VerifC12WipeoutMem() { verifC12Wipeout(false) }
+
+// The calendar model behind AddDate (runtime file) against the library: under the engine AddDate
+// is the model, natively it is the library, and the observations of the witness paths must agree.
+func VerifC12AddDate() {
+	t := time.Unix(int64(verifNondetU32("t")), 0).UTC()
+	a := t.AddDate(5, 0, 0)
+	b := t.AddDate(0, 1, 0)
+	c := t.AddDate(1, 11, 30)
+	verifObserve("plus5y", a.Unix())
+	verifObserve("plus1m", b.Unix())
+	verifObserve("plus1y11m30d", c.Unix())
+	// (no universally quantified assertion here: proving facts about the division chains is beyond
+	// the solvers' time limits; finding instances, which is what a counterexample needs, is not)
+	verifReach("end")
+}
